@@ -1,5 +1,6 @@
 import DaeVerif.C04.Model
 import DaeVerif.Common.Proto
+import Std.Data.HashMap
 /-!
 Line-protocol driver for C04 (stateful).  Grammar (space separated tokens, `~` = empty string,
 every list is count-prefixed):
@@ -15,7 +16,12 @@ P <backend:scan|scansplit|sel> <cat:dns|sub|node|subnode> <alias:0|1> geo labels
   A n (name key val)^n  GN n name^n  prog
       → opt=<prog after the pipeline | err> split=<#rules of the category | - | err>
 q <bits|-> <gbits|->
-      → dec=<id.mark.must | err> spec=<id.mark.must>
+      → dec=<id.mark.must | err> spec=<id.mark.must> raw=<id.mark.must | err> sens=<3 bits> m=<0|1>
+        raw  = the program after alias/dat only (no merge, sort, dedup), compiled and run
+        sens = would this evaluation be decided differently by (1) merging negated neighbours too,
+               (2) de-duplicating on the value only, (3) comparing outbounds by name only — generator
+               sensitivity counters, not compared with the implementation
+        m    = the deciding rule of the normalised program absorbed at least one neighbour
 pipeline <site:traffic|dnsreq|dnsresp|daedns> <optimizer type names, comma separated, as found in the source>
       → pipeline=<the list the theorems are about>
 N prog | prog
@@ -122,6 +128,53 @@ def parseCat : String → Option Cat
   | "subnode" => some .subnode
   | _ => none
 
+/-! what-if variants of the optimizers (only for the sensitivity counters) -/
+
+/-- merge loop with an arbitrary merge condition -/
+def mergeLoopBy (ok : Rule → Rule → Bool) (cur : Rule) : List Rule → List Rule
+  | [] => [cur]
+  | r :: rs => if ok cur r then mergeLoopBy ok (absorb cur r) rs else cur :: mergeLoopBy ok r rs
+
+def mergeBy (ok : Rule → Rule → Bool) : Prog → Prog
+  | [] => []
+  | r :: rs => mergeLoopBy ok r rs
+
+def mergeableByName (a b : Rule) : Bool :=
+  match a.funcs, b.funcs with
+  | [fa], [fb] => fa.name == fb.name && !fa.neg && !fb.neg && a.out.name == b.out.name
+  | _, _ => false
+
+def dedupValAux (seen : List String) : List Param → List Param
+  | [] => []
+  | p :: ps => if seen.contains p.val then dedupValAux seen ps else p :: dedupValAux (p.val :: seen) ps
+
+def variantNeg (e : Prog) : Prog := dedupOpt (mergeSortOptG true e)
+def variantVal (e : Prog) : Prog :=
+  (mergeSortOpt e).map fun r => { r with funcs := r.funcs.map fun f => { f with params := dedupValAux [] f.params } }
+def variantName (e : Prog) : Prog :=
+  dedupOpt ((mergeBy mergeableByName (e.map sortFuncsRule)).map sortParamsRule)
+
+/-- for every rule the real merge loop outputs: did it absorb a neighbour -/
+def mergeFlagsLoop (cur : Rule) (absorbed : Bool) : List Rule → List Bool
+  | [] => [absorbed]
+  | r :: rs =>
+    if mergeableG false cur r then mergeFlagsLoop (absorb cur r) true rs
+    else absorbed :: mergeFlagsLoop r false rs
+
+def mergeFlags : Prog → List Bool
+  | [] => []
+  | r :: rs => mergeFlagsLoop r false rs
+
+/-- index of the rule that decides (mirrors `firstMatchAst`) -/
+def firstMatchIdx {δ : Type} (S : Sem δ) : Prog → Nat → Option Nat
+  | [], _ => none
+  | r :: rs, i =>
+    if holdsR S r then
+      match S.parseOut r.out with
+      | .final _ => some i
+      | .mustRules => firstMatchIdx S rs (i + 1)
+    else firstMatchIdx S rs (i + 1)
+
 structure Ctx where
   backend : String
   cat : Cat
@@ -136,6 +189,15 @@ structure Ctx where
   out : Option Prog
   /-- … and after `SplitRequestRules` for the backends that split -/
   final : Option Prog
+  /-- the program after alias/dat only (then split) -/
+  rawFinal : Option Prog
+  /-- for every rule of `final`: did it absorb a neighbour -/
+  mergedFlags : List Bool
+  /-- what-if variants of the pipeline (sensitivity counters) -/
+  variants : List (Option Prog)
+  atomIx : Std.HashMap (String × Param) Nat
+  /-- the tables of the P line cover everything the model will look up -/
+  complete : Bool
 
 def expect (s : String) : Tk Unit
   | t :: ts => if t = s then some ((), ts) else none
@@ -162,10 +224,24 @@ def parseCtx (ts : List String) : Option Ctx := do
   if !ts.isEmpty then none
   let geo := mkGeo ges
   let aliasing := al == 1
+  let expanded := datOpt geo (if aliasing then aliasOpt prog else prog)
   let out := if aliasing then trafficPipeline geo prog else dnsPipeline geo prog
-  let final := if backend == "scan" then out else out.bind (splitCat cat)
+  let split (p : Option Prog) : Option Prog := if backend == "scan" then p else p.bind (splitCat cat)
+  let atomIx := (atoms.zipIdx).foldl (fun m (a, i) => if m.contains a then m else m.insert a i) {}
+  let outsKnown := prog.all fun r => ls.any fun l => decide (l.1 = r.out)
+  let atomsKnown := match expanded with
+    | some e => e.all fun r => r.funcs.all fun f => f.params.all fun p => atomIx.contains (f.name, p)
+    | none => true
+  let merged := match expanded with
+    | some e => mergeFlags (e.map sortFuncsRule)
+    | none => []
+  let mergedFlags := match out with
+    | some o => ((o.zip merged).filter fun (r, _) => backend == "scan" || classify r = some cat).map (·.2)
+    | none => []
   pure { backend, cat, aliasing, geo, parseOut := mkParseOut ls, fb := (fid, fmark, fmust == 1),
-         atoms, guardNames := gn, prog, out, final }
+         atoms, guardNames := gn, prog, out, final := split out, rawFinal := split expanded, mergedFlags,
+         variants := [split (expanded.map variantNeg), split (expanded.map variantVal), split (expanded.map variantName)],
+         atomIx, complete := outsKnown && atomsKnown }
 
 /-! serialisation -/
 
@@ -186,11 +262,11 @@ def indexOf? {α : Type} [BEq α] (x : α) : List α → Nat → Option Nat
   | [], _ => none
   | y :: ys, i => if y == x then some i else indexOf? x ys (i + 1)
 
-def bitAt (bits : List Char) (i : Nat) : Bool := bits.getD i '0' == '1'
+def bitAt (bits : Array Char) (i : Nat) : Bool := bits.getD i '0' == '1'
 
-def mkSem (c : Ctx) (bits gbits : List Char) : Sem Dec :=
+def mkSem (c : Ctx) (bits gbits : Array Char) : Sem Dec :=
   { atom := fun n p =>
-      match indexOf? (n, p) c.atoms 0 with
+      match c.atomIx[(n, p)]? with
       | some i => bitAt bits i
       | none => false
     guard := fun n =>
@@ -198,30 +274,47 @@ def mkSem (c : Ctx) (bits gbits : List Char) : Sem Dec :=
       | some i => bitAt gbits i
       | none => true
     emptyVal := fun _ => c.backend == "sel"
-    parseOut := c.parseOut }
+    parseOut := c.parseOut
+    perValue := fun n => ["port", "sport", "pname", "dscp", "qtype", "upstream"].contains n }
 
-def answer (c : Ctx) (bits gbits : List Char) : String :=
+def runFinal (c : Ctx) (S : Sem Dec) (p : Option Prog) : Option (Dec × Bool) :=
+  match p with
+  | none => none
+  | some p =>
+    if c.backend == "sel" then some (selCompiled S p c.fb false)
+    else compiledDecision S p c.fb false
+
+def sOptDec : Option (Dec × Bool) → String
+  | some d => sDec d
+  | none => "err"
+
+def answer (c : Ctx) (bits gbits : Array Char) : String :=
   let S := mkSem c bits gbits
   let U := userSem S c.geo c.aliasing
   let spec :=
     if c.backend == "scan" then firstMatchAst U c.prog c.fb false
     else firstMatchAst (withCat U c.cat) c.prog c.fb false
-  let dec : Option (Dec × Bool) :=
-    match c.final with
-    | none => none
+  let dec := runFinal c S c.final
+  let raw := runFinal c S c.rawFinal
+  let astDec := c.final.map fun p => firstMatchAst S p c.fb false
+  let sens := c.variants.map fun v =>
+    match v, astDec with
+    | some p, some d => if firstMatchAst S p c.fb false == d then '0' else '1'
+    | _, _ => '0'
+  let m := match c.final with
     | some p =>
-      if c.backend == "sel" then some (firstMatchAst S p c.fb false)
-      else compiledDecision S p c.fb false
-  let d := match dec with
-    | some d => sDec d
-    | none => "err"
-  s!"dec={d} spec={sDec spec}"
+      match firstMatchIdx S p 0 with
+      | some i => c.mergedFlags.getD i false
+      | none => false
+    | none => false
+  s!"dec={sOptDec dec} spec={sDec spec} raw={sOptDec raw} sens={String.ofList sens} m={boolStr m}"
 
 def handle (st : Option Ctx) (line : String) : Option Ctx × String :=
   match words line with
   | "P" :: rest =>
     match parseCtx rest with
     | some c =>
+      if !c.complete then (none, "bad-op incomplete-tables") else
       let o := match c.out with
         | some p => sProg p
         | none => "err"
@@ -233,8 +326,9 @@ def handle (st : Option Ctx) (line : String) : Option Ctx × String :=
       (some c, s!"opt={o} split={sp}")
     | none => (none, "bad-op")
   | ["pipeline", site, _] =>
-    -- which optimizer list the theorems cover for this call site
-    (st, "pipeline=" ++ ",".intercalate (if site == "traffic" then trafficStages else dnsStages))
+    -- which optimizer list the theorems cover for this call site; no optimizer options, plain glue
+    (st, "pipeline=" ++ ",".intercalate (if site == "traffic" then trafficStages else dnsStages) ++
+      " fields=none glue=ok")
   | "N" :: rest =>
     -- `N progA | progB` → are the two programs equal up to value order/multiplicity and condition order?
     match pProg rest with
@@ -246,9 +340,10 @@ def handle (st : Option Ctx) (line : String) : Option Ctx × String :=
   | ["q", bits, gbits] =>
     match st with
     | some c =>
-      let b := if bits == "-" then [] else bits.toList
-      let g := if gbits == "-" then [] else gbits.toList
-      (st, answer c b g)
+      let b := if bits == "-" then #[] else bits.toList.toArray
+      let g := if gbits == "-" then #[] else gbits.toList.toArray
+      if b.size != c.atoms.length || g.size != c.guardNames.length then (st, "bad-op wrong-number-of-bits")
+      else (st, answer c b g)
     | none => (st, "bad-op")
   | _ => (st, "bad-op")
 
